@@ -267,7 +267,7 @@ pub fn run(cfg: &Config) -> i32 {
     let started = Instant::now();
     require_binaries(cfg);
     let tmp = scratch_dir(cfg, "c01");
-    let cases = cfg.scaled(cfg.pick(2500, 1_000_000));
+    let cases = cfg.scaled(cfg.pick(10_000, 1_000_000));
     let budget = Duration::from_secs_f64(cfg.pick(50.0, 540.0) * cfg.scale);
     let stats = parallel(cfg, "main", cases, budget, |idx, r, st| case(cfg, &tmp, idx, r, st));
     let _ = std::fs::remove_dir_all(&tmp);
@@ -283,7 +283,7 @@ pub fn run(cfg: &Config) -> i32 {
                 "interpretations with finite or co-finite extents over a small value pool".into(),
                 "the oracle kit (three-valued evaluator, ground reference semantics) is the trusted base".into(),
             ],
-            floor: cfg.pick(20_000, 100_000),
+            floor: cfg.pick(60_000, 300_000),
             floor_counter: "definite_rule_comparisons".into(),
             known_replayed: vec![],
             extra: J::obj().set("div_convention", J::s(format!("{:?}", div_conv()))),
